@@ -8,6 +8,7 @@ package main
 import (
 	"go/ast"
 	"go/token"
+	"go/types"
 	"strings"
 )
 
@@ -204,4 +205,241 @@ func rulePodRequiresRecord(c *Ctx, rule string) {
 		return true
 	})
 	c.Check(!uses, rule, "a terminating pod still counts as observed", p.Pos(fn.Decl), fn.Key(), "podRequirePodENI does not look at the deletion timestamp", "deletion timestamp consulted")
+}
+
+// ---- quantifier shape -------------------------------------------------------
+
+// fixedTest: x contains a comparison `… == IPAllocTypeFixed`.
+func fixedTest(info *types.Info, x ast.Node) bool {
+	found := false
+	ast.Inspect(x, func(n ast.Node) bool {
+		be, ok := n.(*ast.BinaryExpr)
+		if !ok || be.Op != token.EQL {
+			return true
+		}
+		for _, s := range []ast.Expr{be.X, be.Y} {
+			if o := identObjSel(info, s); o != nil && o.Name() == "IPAllocTypeFixed" {
+				found = true
+			}
+		}
+		return true
+	})
+	return found
+}
+
+func overAllocations(x ast.Expr) bool {
+	sel, ok := ast.Unparen(x).(*ast.SelectorExpr)
+	return ok && sel.Sel.Name == "Allocations"
+}
+
+// quantOverFixed classifies a boolean expression of fn as "any" (some allocation
+// is Fixed), "all", "none", or "" (not recognised). Recognised forms: a flag
+// initialised false and set true in a range loop over ….Allocations under the
+// Fixed test; a call of a function whose body is `for … { if Fixed { return true } }
+// return false`; lo.SomeBy / lo.ContainsBy / slices.ContainsFunc with the Fixed
+// test as predicate (any); lo.EveryBy (all); lo.NoneBy (none).
+func quantOverFixed(p *Prog, fn *FuncInfo, x ast.Expr, depth int) (string, string) {
+	info := fn.Info()
+	x = ast.Unparen(x)
+	if u, ok := x.(*ast.UnaryExpr); ok && u.Op == token.NOT {
+		k, why := quantOverFixed(p, fn, u.X, depth)
+		switch k {
+		case "any":
+			return "none", why
+		case "none":
+			return "any", why
+		case "all":
+			return "notall", why
+		}
+		return k, why
+	}
+	if id, ok := x.(*ast.Ident); ok {
+		v, _ := info.ObjectOf(id).(*types.Var)
+		if v == nil {
+			return "", "not a variable"
+		}
+		ds := varDefs(fn, v)
+		var inits, sets []varDef
+		for _, d := range ds {
+			if d.rhs == nil {
+				if _, isDecl := d.node.(*ast.ValueSpec); isDecl {
+					continue // var x bool
+				}
+				return "", "assigned from a multi-value expression"
+			}
+			tv := info.Types[ast.Unparen(d.rhs)]
+			if tv.Value != nil {
+				if tv.Value.String() == "false" && (d.tok == token.DEFINE || len(inits) == 0) {
+					inits = append(inits, d)
+					continue
+				}
+				sets = append(sets, d)
+				continue
+			}
+			if len(ds) == 1 {
+				return quantOverFixed(p, fn, d.rhs, depth)
+			}
+			return "", "assigned " + exprString(d.rhs)
+		}
+		if len(sets) == 0 {
+			return "", "never set"
+		}
+		for _, s := range sets {
+			tv := info.Types[ast.Unparen(s.rhs)]
+			if tv.Value.String() != "true" {
+				return "", "reset to false"
+			}
+			// inside a range over Allocations, under the Fixed test
+			okLoop, okTest := false, false
+			for _, n := range pathTo(fn.Decl.Body, s.node) {
+				switch t := n.(type) {
+				case *ast.RangeStmt:
+					if overAllocations(t.X) {
+						okLoop = true
+					}
+				case *ast.IfStmt:
+					if okLoop && fixedTest(info, t.Cond) && t.Body.Pos() <= s.node.Pos() && s.node.End() <= t.Body.End() {
+						okTest = true
+					}
+				case *ast.CaseClause:
+					if okLoop {
+						for _, e := range t.List {
+							if o := identObjSel(info, e); o != nil && o.Name() == "IPAllocTypeFixed" {
+								okTest = true
+							}
+						}
+					}
+				}
+			}
+			if !okLoop || !okTest {
+				return "", "set outside a Fixed test in a loop over the allocations"
+			}
+		}
+		return "any", "flag set in a loop over the allocations under the Fixed test"
+	}
+	call, ok := x.(*ast.CallExpr)
+	if !ok {
+		return "", "expression " + exprString(x)
+	}
+	callee := Callee(info, call)
+	if callee == nil {
+		return "", "dynamic call"
+	}
+	if callee.Pkg() != nil && (strings.HasSuffix(callee.Pkg().Path(), "samber/lo") || callee.Pkg().Path() == "slices") && len(call.Args) == 2 {
+		lit, _ := ast.Unparen(call.Args[1]).(*ast.FuncLit)
+		if !overAllocations(call.Args[0]) || lit == nil {
+			return "", callee.Name() + " over something else"
+		}
+		rets := declReturns(lit.Body)
+		if len(rets) != 1 || len(rets[0].Results) != 1 || !fixedTest(info, rets[0].Results[0]) {
+			return "", callee.Name() + " with another predicate"
+		}
+		if _, neg := ast.Unparen(rets[0].Results[0]).(*ast.UnaryExpr); neg {
+			return "", "negated predicate"
+		}
+		switch callee.Name() {
+		case "SomeBy", "ContainsBy", "ContainsFunc":
+			return "any", callee.Name()
+		case "EveryBy":
+			return "all", callee.Name()
+		case "NoneBy":
+			return "none", callee.Name()
+		}
+		return "", callee.Name()
+	}
+	if cf := p.FuncOf(callee); cf != nil && depth < 2 && cf.Decl.Body != nil {
+		// for … range X.Allocations { if Fixed { return true } } return false
+		cinfo := cf.Info()
+		rets := declReturns(cf.Decl.Body)
+		sawTrue, okShape := false, len(rets) > 0
+		for _, r := range rets {
+			if len(r.Results) != 1 {
+				okShape = false
+				continue
+			}
+			tv := cinfo.Types[ast.Unparen(r.Results[0])]
+			if tv.Value == nil {
+				k, why := quantOverFixed(p, cf, r.Results[0], depth+1)
+				if k == "any" && len(rets) == 1 {
+					return k, cf.Name + ": " + why
+				}
+				okShape = false
+				continue
+			}
+			if tv.Value.String() == "true" {
+				inLoop, inTest := false, false
+				for _, n := range pathTo(cf.Decl.Body, r) {
+					switch t := n.(type) {
+					case *ast.RangeStmt:
+						if overAllocations(t.X) {
+							inLoop = true
+						}
+					case *ast.IfStmt:
+						if inLoop && fixedTest(cinfo, t.Cond) && t.Body.Pos() <= r.Pos() && r.End() <= t.Body.End() {
+							inTest = true
+						}
+					}
+				}
+				if !inLoop || !inTest {
+					okShape = false
+				}
+				sawTrue = true
+			}
+		}
+		if okShape && sawTrue {
+			return "any", cf.Name + " returns true for the first Fixed allocation"
+		}
+		return "", cf.Name + ": body not of the any-Fixed shape"
+	}
+	return "", "call of " + callee.Name()
+}
+
+// ruleAnyFixedParks: the pod-delete path parks a record (phase Detaching)
+// whenever SOME allocation of it is Fixed — the decision is existential.
+func ruleAnyFixedParks(c *Ctx, rule string) {
+	p := c.P
+	c.Rule(rule, "ReconcilePod.podDelete parks the record (Detaching) when some allocation is Fixed: the test guarding the Detaching store is existential over Spec.Allocations (a flag set in a loop, a helper of that shape, or SomeBy/ContainsBy) — with all/none a record mixing Fixed and Elastic interfaces would be destroyed")
+	fn := p.Func(podCtlPkg, "ReconcilePod.podDelete")
+	if fn == nil {
+		c.Unres(rule, "ReconcilePod.podDelete", "not found")
+		return
+	}
+	info := fn.Info()
+	n := 0
+	for _, ps := range phaseStores(c) {
+		if ps.st.Fn != fn || ps.to != "Detaching" {
+			continue
+		}
+		n++
+		kind, why, at := "", "no test on the allocations encloses the store", p.Pos(ps.st.Node)
+		for _, x := range pathTo(fn.Decl.Body, ps.st.Node) {
+			is, ok := x.(*ast.IfStmt)
+			if !ok || !(is.Body.Pos() <= ps.st.Node.Pos() && ps.st.Node.End() <= is.Body.End()) {
+				continue
+			}
+			// a test on the record's phase is not the classification
+			if be, ok := ast.Unparen(is.Cond).(*ast.BinaryExpr); ok && (be.Op == token.EQL || be.Op == token.NEQ) {
+				if sel, ok := ast.Unparen(be.X).(*ast.SelectorExpr); ok && sel.Sel.Name == "Phase" {
+					continue
+				}
+			}
+			k, w := quantOverFixed(p, fn, is.Cond, 0)
+			if k != "" || kind == "" {
+				kind, why, at = k, w, p.Pos(is.Cond)
+			}
+			if k != "" {
+				break
+			}
+		}
+		_ = info
+		switch kind {
+		case "any":
+			c.OK(rule, "podDelete: Detaching is chosen when any allocation is Fixed", at, fn.Key(), why)
+		case "":
+			c.Undec(rule, "podDelete: Detaching is chosen when any allocation is Fixed", at, fn.Key(), "an existential test over Spec.Allocations", "not recognised: "+why)
+		default:
+			c.Bad(rule, "podDelete: Detaching is chosen when any allocation is Fixed", at, fn.Key(), "an existential test over Spec.Allocations", "the test is '"+kind+"' ("+why+")")
+		}
+	}
+	c.Floor(rule, "Detaching stores in podDelete", 1, n)
 }
